@@ -1,5 +1,6 @@
 (* Entry points evaluated by the correspondence harness (props/C06.py). *)
 From PV Require Export C06.Spec.
+From Coq Require Import DecimalString.
 
 Definition jq (q : Q) : jv := JC "Q" [JZ (Qnum q); JZ (Zpos (Qden q))].
 Definition jqs (l : list Q) : jv := JL (map jq l).
@@ -149,3 +150,27 @@ Definition run_name_hist (steps : list (kstat * statk * cread)) : jv :=
                                      else jnone
                          | _ => jnone
                          end) steps) ].
+
+(* ------------------------------------------------ big records generated inside Gallina *)
+(* a list given as (element, how many times) runs: keeps the case terms small *)
+Definition expand {A} (l : list (A * nat)) : list A := flat_map (fun p => repeat (fst p) (snd p)) l.
+(* decimal text of a non-negative number *)
+Definition z_dec (z : Z) : bytes := bs (NilZero.string_of_uint (N.to_uint (Z.to_N z))).
+(* big files are not printed byte by byte (reading a 40 KiB list back from the VM and printing it costs seconds):
+   the harness rebuilds them with its own twin of the printer and must hit the same length, checksum and head *)
+Definition cksum (l : bytes) : Z := fold_left (fun a c => (a * 257 + c + 1) mod 2147483629) l 7.
+Definition jdigest (l : bytes) : jv := JC "Digest" [JZ (Z.of_nat (length l)); JZ (cksum l); JB (firstn 64 l)].
+Definition run_status_big (r : kstatus) : jv :=
+  JL [ jdigest (k_status r); model_status (k_status r); spec_status_file r ].
+
+(* n threads base, base+1, ...: each with the given name and the same counters *)
+Definition run_threads_n (clk : positive) (n : nat) (base : Z) (comm : bytes) (after : list bytes)
+    (alive : bool) (own : kstat) : jv :=
+  let ts := map (fun i => {| t_tid := z_dec (base + Z.of_nat i);
+                             t_stat := {| k_pid := z_dec (base + Z.of_nat i); k_comm := comm; k_after := after |};
+                             t_gone := false |}) (seq 0 n) in
+  JL [ jdigest (concat (map (fun t => k_stat (t_stat t)) ts));
+       JB (k_stat own);
+       jv_outcome jrows (threads clk (map task_entry ts) alive (k_stat own));
+       (if forallb wf_kthread ts && (alive || negb (any_gone ts))
+        then jval (jrows (spec_trows clk (sort_by t_tid ts))) else jnone) ].
